@@ -43,6 +43,10 @@ class Gen:
             return ("RETG", i, self.rng.choice(TRUTHY if t else FALSY), t)
         if kind == "RAISE":
             return ("RAISE", i)
+        if kind == "RAISEK":
+            return ("RAISEK", i, self.rng.choice(["StopIterErr", "TypeErr", "NameErr", "NoPropErr", "ZeroDivisionErr", "AssertionErr", "SyntaxErr", "NotImplementedErr"]))
+        if kind == "YSTOP":
+            return ("YSTOP", i)
         if kind == "RAISEG":
             t = self.rng.random() < 0.5
             return ("RAISEG", i, self.rng.choice(TRUTHY if t else FALSY), t)
@@ -51,7 +55,7 @@ class Gen:
         raise ValueError(kind)
 
     def body(self, depth, n):
-        kinds = ["M", "M", "D", "D", "DT", "DF", "DR", "RET", "RETG", "RAISE", "RAISEG", "ERR"]
+        kinds = ["M", "M", "D", "D", "DT", "DF", "DR", "RET", "RETG", "RAISE", "RAISEG", "ERR", "RAISEK", "YSTOP"]
         if depth > 0:
             kinds += ["N", "N"]
         return [self.stmt(self.rng.choice(kinds), depth) for _ in range(n)]
@@ -82,6 +86,10 @@ def render_body(body, indent="  "):
             lines.append('raise ValueErr.new("r%d") if %s' % (i, s[2]))
         elif k == "ERR":
             lines.append("1 / 0")
+        elif k == "RAISEK":
+            lines.append('raise %s.new("k%d")' % (s[2], i))
+        elif k == "YSTOP":
+            lines.append("yield %d if false" % i)
     return "\n".join(indent + l for l in lines)
 
 
@@ -123,6 +131,12 @@ def simulate(body, trace):
         elif k == "ERR":
             out = ("err", "ZeroDivisionErr", "cannot be divided by 0")
             break
+        elif k == "RAISEK":
+            out = ("err", s[2], "k%d" % i)
+            break
+        elif k == "YSTOP":
+            out = ("err", "StopIterErr", "iter stopped")
+            break
     for q in queue:
         if q[0] == "p":
             trace.append(q[1])
@@ -146,7 +160,7 @@ def expected(body):
 def gen_bodies(chk):
     g = Gen(chk.rng)
     bodies = []
-    base = ["M", "D", "DT", "DF", "DR", "RET", "RAISE", "ERR", "RETG", "RAISEG"]
+    base = ["M", "D", "DT", "DF", "DR", "RET", "RAISE", "ERR", "RETG", "RAISEG", "RAISEK", "YSTOP"]
     # systematic: every kind pair / triple (seed-independent in structure)
     sysrng_state = chk.rng.getstate()
     chk.rng.seed(12345)
@@ -157,7 +171,7 @@ def gen_bodies(chk):
             bodies.append([g.stmt(k, 0) for k in ks])
     # exit injected at every index of a fixed defer-rich skeleton, nested once and twice
     skel = ["M", "D", "M", "DT", "DF", "M", "D"]
-    for ex in ("RET", "RAISE", "ERR", "DR", None):
+    for ex in ("RET", "RAISE", "ERR", "DR", "RAISEK", "YSTOP", None):
         for pos in range(len(skel) + 1):
             ks = list(skel)
             if ex:
@@ -193,7 +207,7 @@ def main(chk):
     for b, r in zip(bodies, res):
         for s in b:
             kinds_hist[s[0]] = kinds_hist.get(s[0], 0) + 1
-        nontriv = has(b, {"D", "DG", "DR"}) and has(b, {"RET", "RETG", "RAISE", "RAISEG", "ERR", "N", "DR"})
+        nontriv = has(b, {"D", "DG", "DR"}) and has(b, {"RET", "RETG", "RAISE", "RAISEG", "ERR", "N", "DR", "RAISEK", "YSTOP"})
         chk.count(r["src"], nontriv)
         exp = expected(b)
         imp = r["impl"]
